@@ -144,3 +144,28 @@ def handler_names(h):
     if h.type is None:
         return {'*'}
     return {x.id for x in ast.walk(h.type) if isinstance(x, ast.Name)} | {x.attr for x in ast.walk(h.type) if isinstance(x, ast.Attribute)}
+
+
+def through_delegate(m, f):
+    """If the body of method ``f`` (docstring aside) is a single call `self.g(args)` (optionally returned), return
+    (g, {parameter of g: argument expression}); else (f, {}).  One level: enough for setters merged into a shared helper."""
+    body = body_wo_doc(f)
+    if len(body) != 1:
+        return f, {}
+    st = body[0]
+    call = st.value if isinstance(st, (ast.Expr, ast.Return)) else None
+    if not (isinstance(call, ast.Call) and isinstance(call.func, ast.Attribute) and isinstance(call.func.value, ast.Name)
+            and call.func.value.id == 'self' and f.cls):
+        return f, {}
+    kind, p = m.lookup(f.cls, call.func.attr)
+    if kind != 'method' or len(p) != 1:
+        return f, {}
+    g = p[0]
+    params = g.params()[1:]
+    bind = {}
+    for a, nm in zip(call.args, params):
+        bind[nm] = a
+    for k in call.keywords:
+        if k.arg:
+            bind[k.arg] = k.value
+    return g, bind
